@@ -379,6 +379,11 @@ func decodeKeyNotFound(b unsafe.Pointer, cursor int64) (int64, *structFieldSet, 
 }
 
 func decodeKey(d *structDecoder, buf []byte, cursor int64) (int64, *structFieldSet, error) {
+	// the string decoder also takes the literal null; an object key is a string
+	cursor = skipWhiteSpace(buf, cursor)
+	if buf[cursor] != '"' {
+		return 0, nil, errors.ErrInvalidBeginningOfValue(buf[cursor], cursor)
+	}
 	key, c, err := d.stringDecoder.decodeByte(buf, cursor)
 	if err != nil {
 		return 0, nil, err
@@ -674,6 +679,9 @@ func decodeKeyNotFoundStream(s *Stream, start int64) (*structFieldSet, string, e
 }
 
 func decodeKeyStream(d *structDecoder, s *Stream) (*structFieldSet, string, error) {
+	if c := s.skipWhiteSpace(); c != '"' {
+		return nil, "", errors.ErrInvalidBeginningOfValue(c, s.totalOffset())
+	}
 	key, err := d.stringDecoder.decodeStreamByte(s)
 	if err != nil {
 		return nil, "", err
